@@ -1,7 +1,7 @@
 #!/bin/sh
 # usage: try_seed.sh <property id> <out dir> <k> [tier]   — confirm a seeded change and run our check against it
 ID=$1; OUT=$2; K=$3; TIER=${4:-quick}
-P=$P; D=$D
+P=$OUT/patch$K.diff; D=$OUT/demo$K.py
 test -f $OUT/patch.diff && { P=$OUT/patch.diff; D=$OUT/demo.py; }
 WT=/tmp/int/seedwt_$ID_$K
 rm -rf $WT; git -C /repo worktree prune; git -C /repo worktree add -q $WT HEAD || exit 2
